@@ -36,6 +36,16 @@ inductive DepPlus (inp : RunInput) : Name → Name → Prop
   | one {t d : Name} : DepOn inp t d → DepPlus inp t d
   | more {t m d : Name} : DepOn inp t m → DepPlus inp m d → DepPlus inp t d
 
+/-- direct dependency as a run determines it: a setup edge of `t` counts unless the run reported `t` up-to-date
+    (`evs`: the events of the run, any order).  Contains `DepOn` for every reachable state (`depOn_depOnE`). -/
+inductive DepOnE (inp : RunInput) (evs : List Ev) (t : Name) : Name → Prop
+  | ns {d : Name} : DepNS inp t d → DepOnE inp evs t d
+  | setup {d : Name} : d ∈ inp.setup t → Ev.skipUtd t ∉ evs → DepOnE inp evs t d
+
+inductive DepPlusE (inp : RunInput) (evs : List Ev) : Name → Name → Prop
+  | one {t d : Name} : DepOnE inp evs t d → DepPlusE inp evs t d
+  | more {t m d : Name} : DepOnE inp evs t m → DepPlusE inp evs m d → DepPlusE inp evs t d
+
 /-! ### DB effect -/
 
 /-- does task `n` have a success record after the events `evs` (NEWEST FIRST, as in `Sys.events`), given whether it
